@@ -18,6 +18,8 @@ import HdwModel.Model.Tx
 import HdwModel.Model.TypedData
 import HdwModel.Model.Message
 import HdwModel.Lemmas.Kind
+import HdwModel.Model.Account
+import HdwModel.Model.Cli
 
 namespace Hdw.Props.SourceTie
 open Hdw Hdw.Gen
@@ -254,5 +256,24 @@ theorem kind_int_range : Tied Src.kindIntRange fun r =>
     rw [TypedData.parseAtom_widths _ n hn (by decide)]
     · simp
     all_goals simp [hd]
+
+/-! ### src/account.rs, src/cmd.rs -/
+
+/-- the address is the Keccak-256 digest of the encoded key without its first `a` bytes (the SEC1 tag),
+without the digest's first `b` bytes -/
+theorem address_slices : Tied Src.addrSkipTag fun a => Tied Src.addrSkipHash fun b =>
+    ∀ {Pt : Type} (P : Prims) (C : Curve Pt) (d : Nat),
+      Account.address P C d = (P.keccak256 ((Account.publicUncompressed C d).drop a)).drop b := by
+  first
+  | exact Tied.none
+  | refine Tied.some ?_
+    first
+    | exact Tied.none
+    | exact Tied.some (by intros; rfl)
+
+/-- without a selector the commands use the default path of the source's default account index -/
+theorem default_account_index : Tied Src.defaultAccountIndex fun i =>
+    Cli.selectedPath .default = Path.forIndex i := by
+  first | exact Tied.none | exact Tied.some rfl
 
 end Hdw.Props.SourceTie
